@@ -346,6 +346,44 @@ def gen_signed_layout_cases(rng, W, seeds, n, binpath):
     return cases
 
 
+def gen_extreme_layout_cases(rng, W, binpath, shard_no, nshards):
+    """properly signed, well-typed layouts at the corners of the value space: 1-3 steps, each with threshold 0 / 1 / u32::MAX,
+    with or without rules and authorised keys, verified over a link directory that holds links for none / some / all of the
+    steps, optionally asked for a summary name; plus a layout without steps"""
+    import itertools
+    combos = []
+    for nsteps in (0, 1, 2, 3):
+        per = list(itertools.product((0, 1, 2 ** 32 - 1), ("none", "allow"), (True, False)))
+        for choice in itertools.product(per, repeat=nsteps):
+            for present in ("none", "all", "first_only"):
+                combos.append((choice, present))
+    rng2 = __import__("random").Random(1234)
+    rng2.shuffle(combos)
+    combos = combos[shard_no::nshards][:60]
+    reqs, plans = [], []
+    for choice, present in combos:
+        steps = []
+        for i, (thr, rules, has_key) in enumerate(choice):
+            r = [] if rules == "none" else [["ALLOW", "*"]]
+            steps.append(scen.mk_step(f"s{i}", thr, [W.kid("ed4")] if has_key else [], [], r, r))
+        layout = scen.mk_layout(W, ["ed4"], steps, [])
+        plans.append((len(reqs), choice, present))
+        reqs.append((layout, ["ed0"], "new"))
+        for i in range(len(choice)):
+            reqs.append((pipeline.leaf_link(f"s{i}", i), ["ed4"], "new"))
+    wires = scen.sign_all(binpath, reqs, nproc=1)
+    cases = []
+    for b, choice, present in plans:
+        files = {}
+        for i in range(len(choice)):
+            if present == "all" or (present == "first_only" and i == 0):
+                files[f"s{i}.{W.pfx('ed4')}.link"] = scen.dumps(wires[b + 1 + i])
+        cases.append({"op": "verify", "layout": scen.dumps(wires[b]), "caller_keys": [[W.kid("ed0"), W.pub("ed0")]],
+                      "files": files, "work_files": {}, "step_name": rng.choice([None, "final"]), "reps": 1,
+                      "meta": {"cls": "extreme_signed_layout"}})
+    return cases
+
+
 def gen_inspection_tree_cases(rng, W, binpath, n):
     """a valid layout with one inspection, verified in a working directory that contains things other than regular
     files (symlinks to devices / directories / themselves, deep nesting): recording the inspection's artifacts must
@@ -479,6 +517,7 @@ def shard(binpath, seed, sh, n, env=None, runner=None, tag="native"):
         del c["_layout_doc"]
     cases += dirs
     cases += gen_signed_layout_cases(rng, W, seeds, max(20, n // 20), common.HARNESS / "target" / "release" / "itv")
+    cases += gen_extreme_layout_cases(rng, W, common.HARNESS / "target" / "release" / "itv", sh, common.NPROC)
     if sh == 0 and not runner:
         cases += gen_large_cases(rng, seeds)
     cases += gen_inspection_tree_cases(rng, W, common.HARNESS / "target" / "release" / "itv", max(6, n // 300))
@@ -695,7 +734,7 @@ def main(ctx):
                                     "statement_json", "predicate_json", "envelope")] + \
           ["ep:metablock:ok", "ep:pubkey_json:ok", "ep:spki:ok", "ep:pk8:ok", "ep:rules:ok", "ep:verify:err", "input:adversarial_json",
            "input:byte_mutation", "input:random_bytes", "input:hostile_link_dir", "input:rules_adversarial", "input:hostile_signed_layout",
-           "input:large", "input:inspection_over_special_files"]
+           "input:large", "input:inspection_over_special_files", "input:extreme_signed_layout", "library_log_statements_formatted"]
     return common.finish(
         PROP, ctx.tier, ctx.seed, res, t0=ctx.t0,
         rule="28 entry points (JSON decoders of every public type through slice/str, metadata wrappers, raw builder, key importers "
